@@ -37,7 +37,8 @@ func (self *BinaryConv) do(ctx context.Context, src []byte, desc *thrift.TypeDes
 	//NOTICE: output buffer must be larger than src buffer
 	rt.GuardSlice(buf, len(src)*_GUARD_SLICE_FACTOR)
 
-	if self.opts.EnableThriftBase {
+	// NOTICE: only a struct can carry the request base, the root may be of any type
+	if self.opts.EnableThriftBase && desc.Type() == thrift.STRUCT {
 		if f := desc.Struct().GetRequestBase(); f != nil {
 			if err := self.writeRequestBaseToThrift(ctx, buf, f); err != nil {
 				return err
